@@ -32,7 +32,8 @@ CONSTANTS
 DevNames == {"joiner_only_before", "joiner_only_after",
              "keep_trailing_ws_after_newline", "collapse_all_ws",
              "no_reset_seen_newline", "tab_not_space", "two_spaces",
-             "rule_linebreak_verbatim", "rule_tight_eats_char"}
+             "rule_linebreak_verbatim", "rule_tight_eats_char",
+             "literal_ends_at_fragment"}
 ASSUME Dev \subseteq DevNames
 ASSUME N \in Nat
 
@@ -173,6 +174,7 @@ RECURSIVE AccSegs(_, _)
 AccSegs(segs, i) ==
   IF i > Len(segs) THEN {<<>>}
   ELSE IF segs[i].k = "com" THEN AccSegs(segs, i + 1)
+  ELSE IF segs[i].k = "lit" THEN {segs[i].s \o y : y \in AccSegs(segs, i + 1)}   \* exempt from joining
   ELSE {x \o y : x \in Acceptable(segs[i].s, SegIsCom(segs, i - 1), SegIsCom(segs, i + 1)),
                  y \in AccSegs(segs, i + 1)}
 
@@ -180,6 +182,58 @@ AccSegs(segs, i) ==
 AccBody(src) == LET r == Scan(src) IN
                 IF r.t = "ok" THEN [t |-> "ok", acc |-> AccSegs(r.segs, 1), ncom |-> Cardinality({i \in 1..Len(r.segs) : r.segs[i].k = "com"})]
                 ELSE [t |-> r.t, acc |-> {}, ncom |-> 0]
+
+-----------------------------------------------------------------------------
+(* Literal blocks.  {literal}BODY{/literal} and {{literal}}BODY{{/literal}} *)
+(* are a token kind of their own: the body ends at the first occurrence of *)
+(* the EXACT closing tag of the form the block was opened with, and is     *)
+(* emitted verbatim - no joining, no comments, no commands inside; joining *)
+(* applies to the text runs around the block as if it were any other tag.  *)
+(* In a segment list a block is [k |-> "lit", s |-> body] (AccSegs).        *)
+(* Deviation "literal_ends_at_fragment": the end is sought by the command  *)
+(* name only ("/literal}") and the left delimiter is stepped over.         *)
+
+LitOpen(dbl)  == ToText(IF dbl THEN "{{literal}}" ELSE "{literal}")
+LitClose(dbl) == ToText(IF dbl THEN "{{/literal}}" ELSE "{/literal}")
+LitFragment   == ToText("/literal}")
+
+IsAt(s, pat, i) == i + Len(pat) - 1 <= Len(s) /\ SubSeq(s, i, i + Len(pat) - 1) = pat
+RECURSIVE FindSub(_, _, _)   \* first index >= i at which pat occurs in s, 0 if none
+FindSub(s, pat, i) == IF i + Len(pat) - 1 > Len(s) THEN 0
+                      ELSE IF IsAt(s, pat, i) THEN i ELSE FindSub(s, pat, i + 1)
+
+\* src is the source that follows the opening tag: index of the first
+\* character of the closing tag, 0 = unclosed
+LitBodyEnd(src, dbl) ==
+  IF "literal_ends_at_fragment" \in Dev
+  THEN LET j == FindSub(src, LitFragment, 1)
+           d == IF dbl THEN 2 ELSE 1
+       IN IF j <= d THEN 0 ELSE j - d
+  ELSE FindSub(src, LitClose(dbl), 1)
+
+LitLex(src, dbl) ==
+  LET e == LitBodyEnd(src, dbl) IN
+  IF e = 0 THEN [t |-> "err"]
+  ELSE [t |-> "ok", body |-> SubSeq(src, 1, e - 1),
+        rest |-> SubSeq(src, e + Len(LitClose(dbl)), Len(src))]
+
+\* the literal family: a body is a sequence of ATOMS (strings: single
+\* characters and hazards such as "{/literal}", "/literal}", " // c", "{sp}")
+RECURSIVE Flat(_)
+Flat(atoms) == IF atoms = <<>> THEN <<>> ELSE ToText(atoms[1]) \o Flat(Tail(atoms))
+
+LitTail == ToText("\n b")
+
+\* a body in a block of the given form: "ok" = emitted verbatim; "unspec" =
+\* the body contains its own closing tag, the block ends early and the
+\* remainder is template source (outside this model's domain)
+LitCase(body, dbl) ==
+  IF FindSub(body, LitClose(dbl), 1) # 0 THEN [t |-> "unspec", out |-> <<>>]
+  ELSE LET r == LitLex(body \o LitClose(dbl) \o LitTail, dbl) IN
+       IF r.t = "ok" THEN [t |-> "ok", out |-> r.body] ELSE [t |-> "err", out |-> <<>>]
+
+\* text contexts of a literal block: <<text before, text after>>
+LitContexts == << <<"", "">>, <<"a \n", "\n b">>, <<"a ", " b">>, <<"x\n\t", "\n\ty">>, <<"<a>\n", "\n</a>">> >>
 
 -----------------------------------------------------------------------------
 (* (B) The machine of rawtext(s, trimBefore, trimAfter).                   *)
@@ -324,5 +378,22 @@ ScanPartition ==
     /\ ((\A i \in 1..Len(inp) : inp[i] # "/") => Len(r.segs) <= 1)
     /\ \A o \in AccSegs(r.segs, 1) :
          StripWs(o) = StripWs(CatSegs(SelectSeq(r.segs, LAMBDA g : g.k = "text"), 1))
+
+\* literal family (inp is a sequence of atoms): a body that does not contain
+\* the closing tag of its form is lexed back exactly, whatever else it holds
+LitExact ==
+  \A dbl \in BOOLEAN :
+    LET body == Flat(inp) IN
+    FindSub(body, LitClose(dbl), 1) = 0 =>
+      LitLex(body \o LitClose(dbl) \o LitTail, dbl) = [t |-> "ok", body |-> body, rest |-> LitTail]
+
+\* <<"L", body, double-brace form?, "ok"|"unspec"|"err", output>> and once
+\* <<"LC", i, text before, text after, RuleA(before), RuleA(after)>>
+PrintLiteral ==
+  LET body == Flat(inp) IN
+  /\ \A dbl \in BOOLEAN : LET c == LitCase(body, dbl) IN PrintT(<<"L", body, dbl, c.t, c.out>>)
+  /\ (inp = <<>> => \A i \in 1..Len(LitContexts) :
+        LET pre == ToText(LitContexts[i][1]) post == ToText(LitContexts[i][2]) IN
+        PrintT(<<"LC", i, pre, post, RuleA(pre), RuleA(post)>>))
 
 =============================================================================
